@@ -305,6 +305,14 @@ theorem C07.simplex_kkt_sufficient {ι : Type} (I : Finset ι) (x z : ι → K) 
     _ ≤ 0 := le_refl _
 
 
+/- FULL STATEMENT (not proved): for every list `x ≠ []` and `r ≥ 0`,
+   `simplexTau r x = some τ ∧ sumK (x.map fun xi => maxK (xi − τ) 0) = r`
+   for the executable `simplexTau` (mergeSort + left fold keeping the last index with crit ≥ 0).
+   Proved below: the arithmetic core, index-wise over a non-increasing sequence.  Missing: the
+   induction tying the fold over `List.mergeSort` to these index-wise hypotheses (sortedness,
+   permutation invariance of the sum, "last index with crit ≥ 0").  In its place the driver
+   evaluates the residual `sumK p − r` exactly on every simplex input of every run and the
+   harness requires it to be 0 (`simplex/feasibility-checked` in the evidence). -/
 /-- The sorted-prefix rule of `proj_simplex` produces a feasible threshold: for a
 non-increasing `u`, if `i` is an index with `crit_i ≥ 0` whose successor (if any) has
 `crit_{i+1} < 0` (in particular the LAST index with `crit ≥ 0`, which is what
@@ -376,16 +384,13 @@ theorem C07.l1_list_minimises (E : Env K) (lam : K) (g : Option (List K)) (w x z
 
 
 /-! Non-vacuity of the lifting theorems on concrete data. -/
-/-- Example data for the simplex threshold: the sorted vector (1, 1/2, -1). -/
-def C07.uEx : ℕ → ℚ := fun k => if k = 0 then 1 else if k = 1 then 1 / 2 else -1
-
-example : ∑ k ∈ Finset.range 3, maxK (C07.uEx k
-    - 1 / ((2 : ℕ) : ℚ) * (∑ k ∈ Finset.range 2, C07.uEx k - 1)) 0 = 1 := by
-  apply C07.simplex_threshold_feasible_partial 3 2 C07.uEx 1 (by norm_num) (by norm_num)
+example : ∑ k ∈ Finset.range 3, maxK (uEx k
+    - 1 / ((2 : ℕ) : ℚ) * (∑ k ∈ Finset.range 2, uEx k - 1)) 0 = 1 := by
+  apply C07.simplex_threshold_feasible_partial 3 2 uEx 1 (by norm_num) (by norm_num)
   · intro a b hab hb
-    interval_cases b <;> interval_cases a <;> simp [C07.uEx] <;> norm_num
-  · simp [Finset.sum_range_succ, C07.uEx]; norm_num
-  · right; simp [Finset.sum_range_succ, C07.uEx]; norm_num
+    interval_cases b <;> interval_cases a <;> simp [uEx] <;> norm_num
+  · simp [Finset.sum_range_succ, uEx]; norm_num
+  · right; simp [Finset.sum_range_succ, uEx]; norm_num
 
 example : (Fn.prox (⟨id, 0⟩ : Env ℚ) (.l1 1 none) [1, 2] (.sc (1 / 2)) [2, -1]).length = 2 :=
   (C07.l1_list_minimises (⟨id, 0⟩ : Env ℚ) 1 none [1, 2] [2, -1] [0, 0] (.sc (1 / 2)) (by norm_num)
@@ -406,6 +411,10 @@ end Lift
 section Abstract
 variable {E : Type} [NormedAddCommGroup E] [InnerProductSpace ℝ E]
 
+/-- The resolvent characterisation implies optimality with a quadratic gap: if `p` satisfies
+the variational inequality of `prox_{σ f}(x)` then no `z` in the domain of `f` has a smaller
+value of `σ f(z) + ‖z − x‖²/2`, and the gap is at least `‖z − p‖²/2`.  (This is the statement
+the harness probes numerically, divided by `σ`.) -/
 theorem C07.prox_minimises (C : Set E) (f : E → ℝ) (σ : ℝ) (x p : E)
     (h : ProxVI C f σ x p) (z : E) (hz : z ∈ C) :
     σ * f p + ‖p - x‖ ^ 2 / 2 + ‖z - p‖ ^ 2 / 2 ≤ σ * f z + ‖z - x‖ ^ 2 / 2 := by
@@ -417,6 +426,8 @@ theorem C07.prox_minimises (C : Set E) (f : E → ℝ) (σ : ℝ) (x p : E)
     rw [real_inner_comm, ← inner_neg_right]; congr 1; abel
   linarith
 
+/-- Uniqueness: any minimiser of `σ f(z) + ‖z − x‖²/2` over the domain equals the point
+satisfying the variational inequality. -/
 theorem C07.prox_unique (C : Set E) (f : E → ℝ) (σ : ℝ) (x p q : E)
     (h : ProxVI C f σ x p) (hq : q ∈ C)
     (hmin : ∀ z ∈ C, σ * f q + ‖q - x‖ ^ 2 / 2 ≤ σ * f z + ‖z - x‖ ^ 2 / 2) : q = p := by
@@ -426,6 +437,7 @@ theorem C07.prox_unique (C : Set E) (f : E → ℝ) (σ : ℝ) (x p q : E)
   have : ‖q - p‖ = 0 := by nlinarith [norm_nonneg (q - p)]
   exact sub_eq_zero.mp (norm_eq_zero.mp this)
 
+/-- Proximal maps are firmly non-expansive: `‖P x − P y‖² ≤ ⟪P x − P y, x − y⟫`. -/
 theorem C07.prox_firmly_nonexpansive (C : Set E) (f : E → ℝ) (σ : ℝ) (x y p q : E)
     (hp : ProxVI C f σ x p) (hq : ProxVI C f σ y q) :
     ‖p - q‖ ^ 2 ≤ inner ℝ (p - q) (x - y) := by
@@ -438,6 +450,7 @@ theorem C07.prox_firmly_nonexpansive (C : Set E) (f : E → ℝ) (σ : ℝ) (x y
     ring
   linarith
 
+/-- The proximal of an indicator functional (`f = 0` on `C`) leaves feasible points fixed. -/
 theorem C07.indicator_prox_fixes_feasible (C : Set E) (σ : ℝ) (x p : E)
     (h : ProxVI C (fun _ => 0) σ x p) (hx : x ∈ C) : p = x := by
   have h1 := h.2 x hx
@@ -446,10 +459,13 @@ theorem C07.indicator_prox_fixes_feasible (C : Set E) (σ : ℝ) (x p : E)
   have : ‖x - p‖ = 0 := by nlinarith [norm_nonneg (x - p)]
   exact (sub_eq_zero.mp (norm_eq_zero.mp this)).symm
 
+/-- The proximal of an indicator functional lands in the constraint set and is idempotent. -/
 theorem C07.indicator_prox_idempotent (C : Set E) (σ : ℝ) (P : E → E)
     (h : IsProx C (fun _ => 0) σ P) (x : E) : P x ∈ C ∧ P (P x) = P x :=
   ⟨(h x).1, C07.indicator_prox_fixes_feasible C σ (P x) (P (P x)) (h (P x)) (h x).1⟩
 
+/-- `proximal_translation` (`FunctionalTranslation.proximal`): `y + prox_{σ f}(x − y)` is the
+proximal of `z ↦ f(z − y)`. -/
 theorem C07.prox_translation (C : Set E) (f : E → ℝ) (P : ℝ → E → E) (y : E) (σ : ℝ)
     (hP : IsProx C f σ (P σ)) :
     IsProx {z | z - y ∈ C} (fun z => f (z - y)) σ (proxTranslation P y σ) := by
@@ -462,6 +478,9 @@ theorem C07.prox_translation (C : Set E) (f : E → ℝ) (P : ℝ → E → E) (
   have e2 : z - (y + P σ (x - y)) = z - y - P σ (x - y) := by abel
   rw [e1, e2]; exact this
 
+/-- `proximal_arg_scaling` (`FunctionalRightScalarMult.proximal`), scalar `s ≠ 0`:
+`(1/s)·prox_{σ s² f}(s x)` is the proximal of `z ↦ f(s z)` — with exactly the step `σ·s·s` the
+code passes to the inner factory. -/
 theorem C07.prox_arg_scaling (C : Set E) (f : E → ℝ) (P : ℝ → E → E) (s σ : ℝ) (hs : s ≠ 0)
     (hP : IsProx C f (σ * (s * s)) (P (σ * (s * s)))) :
     IsProx {z | s • z ∈ C} (fun z => f (s • z)) σ (proxArgScaling P s σ) := by
@@ -484,6 +503,7 @@ theorem C07.prox_arg_scaling (C : Set E) (f : E → ℝ) (P : ℝ → E → E) (
       ≤ (s * s) * (σ * f (s • z)) := by nlinarith
   exact le_of_mul_le_mul_left this hss
 
+/-- `FunctionalLeftScalarMult.proximal`: `prox_{(σ c) f}` is the proximal of `c·f` with step `σ`. -/
 theorem C07.prox_left_scaling (C : Set E) (f : E → ℝ) (P : ℝ → E → E) (c σ : ℝ)
     (hP : IsProx C f (σ * c) (P (σ * c))) :
     IsProx C (fun z => c * f z) σ (proxLeftScale P c σ) := by
@@ -494,6 +514,9 @@ theorem C07.prox_left_scaling (C : Set E) (f : E → ℝ) (P : ℝ → E → E) 
   simp only [proxLeftScale]
   nlinarith
 
+/-- `proximal_quadratic_perturbation` (`FunctionalQuadraticPerturb.proximal`, hence also
+`BregmanDistance.proximal`): with `c = 1/√(2σa+1)` (any `rsqrt` with `c > 0`, `c²(2σa+1) = 1`),
+`c · arg_scaling(prox, c)(σ)(c x − σ c u)` is the proximal of `f + a‖·‖² + ⟪·, u⟫`, `a ≥ 0`. -/
 theorem C07.prox_quadratic_perturbation (C : Set E) (f : E → ℝ) (P : ℝ → E → E)
     (rsqrt : ℝ → ℝ) (a σ : ℝ) (u : E) (ha : 0 ≤ a) (hσ : 0 < σ)
     (hr : 0 < rsqrt (σ * (1 + 1) * a + 1) ∧
@@ -544,6 +567,9 @@ theorem C07.prox_quadratic_perturbation (C : Set E) (f : E → ℝ) (P : ℝ →
   rw [hn, e2]
   linarith
 
+/-- `proximal_convex_conj` (Moreau identity, `FunctionalDefaultConvexConjugate.proximal`, the KL
+and nuclear-norm bindings): `x − σ·prox_{f/σ}(x/σ)` is the proximal of the conjugate with step
+`σ`, for every pair `(f, f*)` satisfying Fenchel–Young with equality at subgradients. -/
 theorem C07.prox_moreau (C : Set E) (f : E → ℝ) (D : Set E) (fs : E → ℝ) (P : ℝ → E → E)
     (σ : ℝ) (hσ : 0 < σ) (hconj : IsConjPair C f D fs)
     (hP : IsProx C f (1 / σ) (P (1 / σ))) :
@@ -623,6 +649,9 @@ theorem C07.l2_prox (lam σ : ℝ) (g : E) (hl : 0 ≤ lam) (hσ : 0 < σ) :
     simp only [sub_self, norm_zero, mul_zero, zero_add, hx, inner_zero_left]
     positivity
 
+/-- `λ‖·‖` and the indicator of the ball `‖y‖ ≤ λ` form a conjugate pair (what
+`LpNorm(2).convex_conj = IndicatorLpUnitBall(2)` claims) — the hypothesis of `C07.prox_moreau`
+is satisfiable on a non-trivial instance. -/
 theorem C07.l2_conj_pair (lam : ℝ) (hl : 0 ≤ lam) :
     IsConjPair (Set.univ : Set E) (fun z => lam * ‖z‖) {y | ‖y‖ ≤ lam} (fun _ => 0) := by
   constructor
@@ -770,3 +799,31 @@ theorem C07.klcc_vi (lam sig g x z : ℝ) (hl : 0 < lam) (hs : 0 < sig) (hg : 0 
     rw [hxp]; field_simp; ring
   rw [e4]
   nlinarith
+
+/-! ## open findings, reproduced on the model (which follows the code)
+
+The optimality theorems above are stated in the inner product of the functional's own space.
+`proximal_linfty` / `proximal_convex_conj_linfty` (C07-F1) and the simplex / sum-constraint
+projections under non-constant weights (C07-F4) do NOT satisfy them; `C07.sumc_vi` and
+`C07.simplex_kkt_sufficient` are therefore stated for the unweighted (constant-weight) inner
+product only, and no optimality theorem is claimed for `Fn.linf` / `Fn.cclinf`. -/
+
+/-- Finding C07-F1 on the model (which follows the code): on the one-point space with weight 2
+(`rn(1, weighting=2)`), `LpNorm(inf).proximal(1)([2])` returns `[1]`, but `z = 3/2` has a
+smaller objective `max|z| + 2 (z − 2)²/(2·1)`: the proximal ignores the weighting. -/
+theorem C07.linf_weighted_fails :
+    Fn.prox (⟨id, 0⟩ : Env ℚ) .linf [2] (.sc 1) [2] = [1] ∧
+    |(3 / 2 : ℚ)| + 2 * ((3 / 2 : ℚ) - 2) ^ 2 / (2 * 1) < |(1 : ℚ)| + 2 * ((1 : ℚ) - 2) ^ 2 / (2 * 1) := by
+  constructor
+  · decide +kernel
+  · norm_num
+
+/-- Finding C07-F4 on the model: on `rn(2, weighting=[1, 2])`,
+`IndicatorSumConstraint.proximal(σ)([0, 0])` returns `[1/2, 1/2]`, but the feasible point
+`(2/3, 1/3)` is closer in the space's own norm (`1/3 < 3/8`). -/
+theorem C07.sumc_array_weighted_fails :
+    Fn.prox (⟨id, 0⟩ : Env ℚ) (.sumc 1) [1, 2] (.sc 1) [0, 0] = [1 / 2, 1 / 2] ∧
+    (2 / 3 : ℚ) + 1 / 3 = 1 ∧
+    (1 * ((2 / 3 : ℚ) - 0) ^ 2 + 2 * ((1 / 3 : ℚ) - 0) ^ 2) / 2
+      < (1 * ((1 / 2 : ℚ) - 0) ^ 2 + 2 * ((1 / 2 : ℚ) - 0) ^ 2) / 2 := by
+  refine ⟨by decide +kernel, by norm_num, by norm_num⟩
